@@ -185,7 +185,7 @@ func (r *runner) handle(s *subject, f finding, origin, known string) {
 		v.Subject, v.Kept, v.Tries = r.minimise(s, f, maxTries, limit)
 		v.Shrunk = true
 	}
-	v.Key = stableKey(v.Finding, v.Subject, len(v.Kept) > 0)
+	v.Key = stableKey(v.Finding, v.Subject, v.Kept)
 	r.mu.Lock()
 	r.pending = append(r.pending, v)
 	if strings.Contains(v.Key, "|opt=") || strings.Contains(v.Key, "|backend=") {
@@ -224,7 +224,7 @@ func (r *runner) finalize() {
 	}
 	wg.Wait()
 	for _, c := range cs {
-		if c.res.Exit == 0 && len(c.res.ParseErrs) == 0 {
+		if c.res.Exit == 0 && len(c.res.ParseErrs) == 0 && len(c.res.GoFiles) > 0 {
 			dirs = append(dirs, c.res.Dir)
 		}
 	}
@@ -247,7 +247,7 @@ func (r *runner) finalize() {
 	if len(again) > 0 {
 		var d2 []string
 		for _, c := range again {
-			if c.res.Exit == 0 && len(c.res.ParseErrs) == 0 {
+			if c.res.Exit == 0 && len(c.res.ParseErrs) == 0 && len(c.res.GoFiles) > 0 {
 				d2 = append(d2, c.res.Dir)
 			}
 		}
@@ -268,7 +268,7 @@ func (r *runner) finalize() {
 		if v.Key == "" {
 			continue
 		}
-		v.Key = stableKey(v.Finding, v.Subject, len(v.Kept) > 0)
+		v.Key = stableKey(v.Finding, v.Subject, v.Kept)
 		if !v.Shrunk {
 			v.Key += "|unshrunk"
 		}
@@ -329,10 +329,15 @@ func run(repo, dir string, seed uint64, tier string, knownOnly bool, only string
 	}
 	out := vl.NewOut(dir)
 	defer out.Close()
-	tg, err := batch.BuildThriftgo(filepath.Join(work, "bin"), mkdir(filepath.Join(work, "bin"), repo))
-	if err != nil {
-		fmt.Println("ERROR:", err)
-		return 2
+	// the thriftgo binary: the known-only mode builds it itself; a full run uses the one batch.Build makes
+	tg := filepath.Join(work, "batch", "thriftgo")
+	if knownOnly {
+		var err error
+		tg, err = batch.BuildThriftgo(filepath.Join(work, "bin"), mkdir(filepath.Join(work, "bin"), repo))
+		if err != nil {
+			fmt.Println("ERROR:", err)
+			return 2
+		}
 	}
 	out.Stats["timing_ms.thriftgo_build"] = int(time.Since(t0).Milliseconds())
 	// the export data of the runtime libraries (in-process type checker) is collected while the batch is built
@@ -406,6 +411,7 @@ func run(repo, dir string, seed uint64, tier string, knownOnly bool, only string
 		}
 		out.Stats["timing_ms.main_shrink"] = int(time.Since(t1).Milliseconds())
 		r.switchStream()
+		r.noRecurseStream()
 	}
 
 	// ---------------- 4. confirm with the real toolchain, report
@@ -481,7 +487,7 @@ func (r *runner) mainStream(nprog int) int {
 		out.Sample(map[string]string{"option_not_run_alone": name, "why": why})
 	}
 	var plan []plannedUnit
-	nProg, perProg := 24, 2
+	nProg, perProg := 18, 2
 	if r.tier == "thorough" {
 		nProg, perProg = 200, 1
 	}
@@ -498,7 +504,7 @@ func (r *runner) mainStream(nprog int) int {
 		fast := i%8 == 7
 		cfg := mainConfig(fast)
 		p := idlgen.Generate(rng, cfg)
-		p = stressRename(rng, p, rng.Intn(4), out.Count)
+		p = stressRename(rng, p, rng.Intn(3), out.Count)
 		p.Stats(out.Count)
 		if fast {
 			plan = append(plan, plannedUnit{p, "fastgo", nil, true, fmt.Sprintf("prog%d", i)})
@@ -511,7 +517,7 @@ func (r *runner) mainStream(nprog int) int {
 			} else if rng.Chance(30) {
 				o = combos[rng.Intn(len(combos))]
 			}
-			rec := !(rng.Chance(12) && len(p.Files) > 0)
+			rec := !(rng.Chance(30) && len(p.Files) == 1) // without -r only single-file programs go through the batch (see noRecurseStream)
 			plan = append(plan, plannedUnit{p, "go", o, rec, fmt.Sprintf("prog%d", i)})
 		}
 	}
@@ -539,24 +545,34 @@ func (r *runner) mainStream(nprog int) int {
 	t0 := time.Now()
 	extra := goBuildAll(filepath.Join(b.Dir, "mod"), len(b.Units))
 	out.Stats["timing_ms.go_build_all"] = int(time.Since(t0).Milliseconds())
-	// go vet on a rotating sample (quick) / everything (thorough)
+	// go vet as a second opinion of the type checker: ONE unit in the quick tier, a quarter of the clean units
+	// (one go command) in the thorough tier. Only type-check lines count; analyser opinions are not C01's.
 	t0 = time.Now()
 	vetted := map[int][]string{}
+	var vetDirs []string
 	for i := range b.Units {
 		u := &b.Units[i]
-		if u.Exit != 0 || len(u.ParseErrors) > 0 || len(u.BuildErrors) > 0 || len(extra[u.Key]) > 0 {
+		if u.Exit != 0 || len(u.ParseErrors) > 0 || len(u.BuildErrors) > 0 || len(extra[u.Key]) > 0 || len(u.Files) == 0 {
 			continue
 		}
-		if r.tier == "thorough" && i%4 == int(r.seed)%4 || r.tier != "thorough" && i%12 == int(r.seed)%12 {
-			if v := b.Vet(i); v != "" {
-				for _, ln := range strings.Split(v, "\n") {
-					ln = strings.TrimSpace(ln)
-					if strings.HasPrefix(ln, "vet: ") { // type-check failures only; analyser opinions are not C01's
-						vetted[i] = append(vetted[i], strings.TrimPrefix(ln, "vet: "))
-					}
-				}
-			}
+		if r.tier == "thorough" && i%4 == int(r.seed)%4 || r.tier != "thorough" && len(vetDirs) == 0 && i >= int(r.seed)%len(b.Units) {
+			vetDirs = append(vetDirs, u.Key)
 			out.Count("oracle.vet.units")
+		}
+	}
+	for d, lines := range goBuild(filepath.Join(b.Dir, "mod"), vetDirs, true) {
+		if d == "analyser" {
+			out.Stats["oracle.vet.analyser-lines"] = len(lines)
+			continue
+		}
+		var k int
+		if _, err := fmt.Sscanf(d, "u%d", &k); err != nil || k >= len(b.Units) {
+			continue
+		}
+		for _, ln := range lines {
+			if rePos.MatchString(ln) && reTypeErr.MatchString(ln) {
+				vetted[k] = append(vetted[k], ln)
+			}
 		}
 	}
 	out.Stats["timing_ms.vet"] = int(time.Since(t0).Milliseconds())
@@ -675,6 +691,42 @@ func (r *runner) switchStream() {
 		}
 	}
 	r.out.Stats["timing_ms.switch_stream"] = int(time.Since(t0).Milliseconds())
+}
+
+// noRecurseStream: multi-file programs generated WITHOUT -r, i.e. file by file (thriftgo once per IDL file into one
+// output root); evaluated in process, findings confirmed with the binary and go build.
+func (r *runner) noRecurseStream() {
+	rng := vl.NewRng(vl.NewRng(r.seed ^ 0x4e52).U64())
+	n := 3
+	if r.tier == "thorough" {
+		n = 24
+	}
+	sets := singleOptions()
+	t0 := time.Now()
+	seen := map[string]bool{}
+	for i := 0; i < n; i++ {
+		cfg := mainConfig(false)
+		cfg.MaxFiles = 3
+		p := idlgen.Generate(rng, cfg)
+		if len(p.Files) < 2 {
+			p = idlgen.Generate(rng, cfg)
+		}
+		var opts []string
+		if i%2 == 1 {
+			opts = sets[rng.Intn(len(sets))]
+		}
+		sub := &subject{Prog: p, Backend: "go", Options: opts, Recurse: false}
+		res := r.chk.runFast(sub.raw())
+		f := judge(res.Exit, res.Stderr, res.ParseErrs, res.TypeErrs)
+		r.chk.cleanup(res)
+		r.out.Count("norecurse." + orStr(f.head(), "ok"))
+		r.out.Count(fmt.Sprintf("norecurse.files.%d", len(p.Files)))
+		if f.violation() && !seen[f.head()+strings.Join(opts, ",")] {
+			seen[f.head()+strings.Join(opts, ",")] = true
+			r.handle(sub, f, "norecurse", "")
+		}
+	}
+	r.out.Stats["timing_ms.norecurse_stream"] = int(time.Since(t0).Milliseconds())
 }
 
 // ---------------------------------------------------------------- replay
